@@ -629,6 +629,8 @@ TY = "src/hypergraph/runners/_shared/types.py"
 AI = "src/hypergraph/runners/async_/executors/interrupt_node.py"
 AG = "src/hypergraph/runners/async_/executors/graph_node.py"
 VARIANTS = [
+    Variant("response-keys-first-separator", "src/hypergraph/runners/_shared/types.py", replace_once("        parts = self.node_name.split(\"/\")\n        prefix = \".\".join(parts[:-1]) + \".\" if len(parts) > 1 else \"\"", "        graph_path, sep, _ = self.node_name.partition(\"/\")\n        prefix = graph_path.replace(\"/\", \".\") + \".\" if sep else \"\""), {"C14.R5"}),
+    Variant("twin-response-keys-last-separator", "src/hypergraph/runners/_shared/types.py", replace_once("        parts = self.node_name.split(\"/\")\n        prefix = \".\".join(parts[:-1]) + \".\" if len(parts) > 1 else \"\"", "        graph_path, sep, _ = self.node_name.rpartition(\"/\")\n        prefix = graph_path.replace(\"/\", \".\") + \".\" if sep else \"\""), set()),
     Variant("pause-is-exception", TY, replace_once("class PauseExecution(BaseException):", "class PauseExecution(Exception):"), {"C14.R1"}),
     Variant("async-execute-one-catches-base", AS, replace_once("        except Exception:\n            if active:\n                await dispatcher.emit_async(build_node_error_event(run_id, node_span_id, run_span_id, node, graph))\n            raise", "        except BaseException as exc:\n            if active:\n                await dispatcher.emit_async(build_node_error_event(run_id, node_span_id, run_span_id, node, graph))\n            raise RuntimeError(str(exc)) from exc"), {"C14.R2"}),
     Variant("runner-pause-handler-swallows", AR, replace_once("        except PauseExecution as pause:\n            pause._partial_state = state  # type: ignore[attr-defined]\n            raise", "        except PauseExecution as pause:\n            pause._partial_state = state  # type: ignore[attr-defined]"), {"C14.R2"}),
